@@ -90,8 +90,8 @@ def inputs(tier):
     # every constructed hydrogen that can be the outermost atom in some direction, in the pose where it is: the structure turned so
     # that this direction is +x / -x and pushed against the face of the PDB coordinate field (the hydrogen then lies outside it)
     out += [dict(src='edge-h', base=dict(src='flat', kind=k)) for k in ('ARG', 'HIS', 'ASN', 'GLN', 'TRP')]
-    prs = [d for d in corpus.pairs('quick', kinds_a=('ASP', 'HIS', 'ARG', 'TYR', 'N+'), kinds_b=('LYS', 'GLU', 'C-', 'ARG', 'ASN', 'TRP', 'CYS', 'SER'))
-           if d.get('level') == 'exposed']
+    prs = corpus.pairs('quick', kinds_a=('ASP', 'HIS', 'ARG', 'TYR', 'N+'), kinds_b=('LYS', 'GLU', 'C-', 'ARG', 'ASN', 'TRP', 'CYS', 'SER', 'ASNO'),
+                       levels=('exposed',))
     out += [dict(src='edge-h', base=dict(src='corpus', d=d)) for d in prs[:: (1 if tier == 'thorough' else 3)]]
     out += [dict(src='edge-h', base=dict(src='corpus', d=d)) for d in corpus.windows(tier, k=5)[:: (1 if tier == 'thorough' else 4)]]
     out += [dict(src='edge-h', base=dict(src='corpus', d=d)) for d in corpus.windows(tier, k=3)[:: (2 if tier == 'thorough' else 8)]]
